@@ -324,6 +324,7 @@ pub open spec fn spec_repr(s: Seq<u8>) -> Option<(SpecRepr, nat)> {
     else { Some((SpecRepr::PostBase, 1nat)) }
 }
 /// One field line decoded with an empty dynamic table: only static-table and literal representations are valid.
+#[verifier::opaque]
 pub open spec fn spec_field_line(s: Seq<u8>) -> Option<(SpecField, nat)> {
     match spec_repr(s) {
         Some((SpecRepr::Indexed { is_static: true, index }, k)) => match spec_static(index) { Some(f) => Some((f, k)), None => None },
@@ -355,20 +356,26 @@ pub open spec fn spec_lines(s: Seq<u8>) -> Option<Seq<SpecField>>
     }
 }
 
-/// RFC 9204 §4.5.1 Encoded Field Section Prefix for a decoder whose dynamic table capacity is 0:
-/// `Required Insert Count (8+)` must be 0 (§4.5.1.1: a non-zero encoded count exceeds FullRange = 2·MaxEntries = 0),
-/// and `S | Delta Base (7+)` must have S = 0 (§4.5.1.2: "An endpoint MUST treat a field block with a Sign bit of 1
-/// as invalid if the value of Required Insert Count is less than or equal to the value of Delta Base").  With S = 0 any
-/// Delta Base is valid ("a field section that was encoded without references to the dynamic table can use any value
-/// for the Base").  `Some(octets used)`.
-pub open spec fn spec_section_prefix(s: Seq<u8>) -> Option<nat> {
+/// RFC 9204 §4.5.1 Encoded Field Section Prefix, syntax: `Required Insert Count (8+)`, then `S | Delta Base (7+)`.
+/// `Some((encoded required insert count, S, delta base, octets used))`.
+pub open spec fn spec_section_prefix_syntax(s: Seq<u8>) -> Option<(u64, u8, u64, nat)> {
     match spec_prefix_int_dec(8, s) {
-        Some((_, ric, k1)) => if ric != 0 { None } else {
-            match spec_prefix_int_dec(7, s.skip(k1 as int)) {
-                Some((sign, _delta, k2)) => if sign != 0 { None } else { Some(k1 + k2) },
-                None => None,
-            }
+        Some((_, ric, k1)) => match spec_prefix_int_dec(7, s.skip(k1 as int)) {
+            Some((sign, delta, k2)) => Some((ric, sign, delta, k1 + k2)),
+            None => None,
         },
+        None => None,
+    }
+}
+/// The prefix as seen by a decoder whose dynamic table capacity is 0:
+/// Required Insert Count must be 0 (§4.5.1.1: a non-zero encoded count exceeds FullRange = 2·MaxEntries = 0), and S
+/// must be 0 (§4.5.1.2: "An endpoint MUST treat a field block with a Sign bit of 1 as invalid if the value of
+/// Required Insert Count is less than or equal to the value of Delta Base").  With S = 0 any Delta Base is valid
+/// (§4.5.1.2: "a field section that was encoded without references to the dynamic table can use any value for
+/// the Base").  `Some(octets used)`.
+pub open spec fn spec_section_prefix(s: Seq<u8>) -> Option<nat> {
+    match spec_section_prefix_syntax(s) {
+        Some((ric, sign, _delta, k)) => if ric != 0 || sign != 0 { None } else { Some(k) },
         None => None,
     }
 }
@@ -404,4 +411,276 @@ pub open spec fn spec_lines_limited(s: Seq<u8>, acc: nat, max: nat) -> SpecSecti
 /// What a receiver with limit `max` does with the field section `s`.
 pub open spec fn spec_field_section(s: Seq<u8>, max: nat) -> SpecSection {
     match spec_section_prefix(s) { Some(k) => spec_lines_limited(s.skip(k as int), 0, max), None => SpecSection::Invalid }
+}
+
+// ---- lemmas about the field-line and section specs
+pub proof fn lemma_repr_bounds(s: Seq<u8>)
+    ensures match spec_repr(s) { Some((_, k)) => 1 <= k <= s.len(), None => true },
+{
+    if s.len() > 0 {
+        lemma_pint_bounds(6, s);
+        lemma_pint_bounds(4, s);
+        lemma_string_bounds(3, s);
+        match spec_prefix_int_dec(4, s) { Some((_, _, k1)) => { lemma_string_bounds(7, s.skip(k1 as int)); } None => {} }
+        match spec_string_literal(3, s) { Some((_, _, k1)) => { lemma_string_bounds(7, s.skip(k1 as int)); } None => {} }
+    }
+}
+/// A line of k octets yields a field of RFC 9114 size at most 140·k: 32 + a static entry (≤ 100) + at most 2 decoded
+/// octets per encoded octet (shortest Huffman code: 5 bits).
+pub proof fn lemma_line_size_bound(s: Seq<u8>)
+    ensures match spec_field_line(s) { Some((f, k)) => 1 <= k <= s.len() && spec_field_size(f) <= 140 * k, None => true },
+{
+    reveal(spec_field_line);
+    lemma_repr_bounds(s);
+    if s.len() > 0 {
+        lemma_pint_bounds(4, s);
+        lemma_string_bounds(3, s);
+        match spec_prefix_int_dec(4, s) { Some((_, _, k1)) => { lemma_string_bounds(7, s.skip(k1 as int)); } None => {} }
+        match spec_string_literal(3, s) { Some((_, _, k1)) => { lemma_string_bounds(7, s.skip(k1 as int)); } None => {} }
+        match spec_repr(s) {
+            Some((SpecRepr::Indexed { is_static, index }, k)) => { axiom_static(index); }
+            Some((SpecRepr::NameRef { is_static, index, value }, k)) => { axiom_static(index); }
+            _ => {}
+        }
+    }
+}
+/// A representation is determined by the octets it uses.
+pub proof fn lemma_repr_ext(a: Seq<u8>, x: Seq<u8>)
+    requires spec_repr(a) is Some,
+    ensures spec_repr(a + x) == spec_repr(a),
+{
+    assert((a + x)[0] == a[0]);
+    if a[0] >= 128 { lemma_pint_ext(6, a, x); }
+    else if a[0] >= 64 {
+        lemma_pint_ext(4, a, x);
+        lemma_pint_bounds(4, a);
+        let k1 = spec_prefix_int_dec(4, a).unwrap().2;
+        assert((a + x).skip(k1 as int) =~= a.skip(k1 as int) + x);
+        lemma_string_ext(7, a.skip(k1 as int), x);
+    } else if a[0] >= 32 {
+        lemma_string_ext(3, a, x);
+        lemma_string_bounds(3, a);
+        let k1 = spec_string_literal(3, a).unwrap().2;
+        assert((a + x).skip(k1 as int) =~= a.skip(k1 as int) + x);
+        lemma_string_ext(7, a.skip(k1 as int), x);
+    }
+}
+pub proof fn lemma_line_ext(a: Seq<u8>, x: Seq<u8>)
+    requires spec_field_line(a) is Some,
+    ensures spec_field_line(a + x) == spec_field_line(a),
+{
+    reveal(spec_field_line);
+    lemma_repr_ext(a, x);
+}
+/// Appending one complete line to a valid sequence of lines appends its field.
+pub proof fn lemma_lines_append(body: Seq<u8>, line: Seq<u8>, f: SpecField)
+    requires spec_lines(body) is Some, spec_field_line(line) == Some((f, line.len())), line.len() > 0,
+    ensures spec_lines(body + line) == Some(spec_lines(body).unwrap().push(f)),
+    decreases body.len()
+{
+    if body.len() == 0 {
+        assert(body + line =~= line);
+        assert(line.skip(line.len() as int) =~= Seq::<u8>::empty());
+        assert(spec_lines(line.skip(line.len() as int)) == Some(Seq::<SpecField>::empty()));
+        assert(spec_lines(body) == Some(Seq::<SpecField>::empty()));
+        assert(seq![f] + Seq::<SpecField>::empty() =~= Seq::<SpecField>::empty().push(f));
+        assert(spec_lines(line) == Some(seq![f] + Seq::<SpecField>::empty()));
+    } else {
+        let (f1, k1) = spec_field_line(body).unwrap();
+        let fs1 = spec_lines(body.skip(k1 as int)).unwrap();
+        assert(spec_lines(body) == Some(seq![f1] + fs1));
+        lemma_line_ext(body, line);
+        assert((body + line).skip(k1 as int) =~= body.skip(k1 as int) + line);
+        lemma_lines_append(body.skip(k1 as int), line, f);
+        assert(spec_lines((body + line).skip(k1 as int)) == Some(fs1.push(f)));
+        assert(seq![f1] + fs1.push(f) =~= (seq![f1] + fs1).push(f));
+        assert(spec_lines(body + line) == Some(seq![f1] + fs1.push(f)));
+    }
+}
+
+// the three representations the stateless encoder chooses between decode to the field they were built from
+pub proof fn lemma_enc_indexed(index: u64, f: SpecField)
+    requires spec_static(index as nat) == Some(f),
+    ensures ({ let e = spec_prefix_int_enc(6, 3, index); spec_field_line(e) == Some((f, e.len())) && e.len() > 0 }),
+{
+    reveal(spec_field_line);
+    axiom_static(index as nat);
+    let e = spec_prefix_int_enc(6, 3, index);
+    assert(p2(6) == 64);
+    lemma_pint_roundtrip(6, 3, index);
+    lemma_pint_bounds(6, e);
+}
+pub proof fn lemma_enc_name_ref(index: u64, name: Seq<u8>, old_value: Seq<u8>, value: Seq<u8>)
+    requires spec_static(index as nat) == Some((name, old_value)), spec_huff_enc(value).len() < 0x8000_0000_0000_0000,
+    ensures ({ let e = spec_prefix_int_enc(4, 5, index) + spec_string_enc(7, 0, value); spec_field_line(e) == Some(((name, value), e.len())) && e.len() > 0 }),
+{
+    reveal(spec_field_line);
+    axiom_static(index as nat);
+    let e1 = spec_prefix_int_enc(4, 5, index);
+    let e2 = spec_string_enc(7, 0, value);
+    assert(p2(4) == 16 && p2(7) == 128);
+    lemma_pint_roundtrip(4, 5, index);
+    lemma_pint_bounds(4, e1);
+    lemma_pint_ext(4, e1, e2);
+    assert((e1 + e2).skip(e1.len() as int) =~= e2);
+    lemma_string_roundtrip(7, 0, value);
+    assert((e1 + e2)[0] == e1[0]);
+}
+pub proof fn lemma_enc_literal(name: Seq<u8>, value: Seq<u8>)
+    requires spec_huff_enc(name).len() < 0x8000_0000_0000_0000, spec_huff_enc(value).len() < 0x8000_0000_0000_0000,
+    ensures ({ let e = spec_string_enc(3, 2, name) + spec_string_enc(7, 0, value); spec_field_line(e) == Some(((name, value), e.len())) && e.len() > 0 }),
+{
+    reveal(spec_field_line);
+    let e1 = spec_string_enc(3, 2, name);
+    let e2 = spec_string_enc(7, 0, value);
+    assert(p2(3) == 8 && p2(7) == 128);
+    lemma_string_roundtrip(3, 2, name);
+    lemma_string_bounds(3, e1);
+    lemma_string_ext(3, e1, e2);
+    assert((e1 + e2).skip(e1.len() as int) =~= e2);
+    lemma_string_roundtrip(7, 0, value);
+    assert((e1 + e2)[0] == e1[0]);
+}
+/// The prefix a stateless encoder writes: Required Insert Count 0, S 0, Delta Base 0.
+pub proof fn lemma_enc_prefix(body: Seq<u8>)
+    ensures spec_section_prefix(spec_prefix_int_enc(8, 0, 0) + spec_prefix_int_enc(7, 0, 0) + body) == Some(2nat),
+        (spec_prefix_int_enc(8, 0, 0) + spec_prefix_int_enc(7, 0, 0) + body).skip(2) == body,
+{
+    let e = spec_prefix_int_enc(8, 0, 0) + spec_prefix_int_enc(7, 0, 0) + body;
+    assert(p2(8) == 256 && p2(7) == 128);
+    assert(e[0] == 0 && e[1] == 0);
+    assert(e.skip(1)[0] == 0);
+    assert(e.skip(2) =~= body);
+}
+
+pub proof fn lemma_section_size_push(fs: Seq<SpecField>, f: SpecField)
+    ensures spec_section_size(fs.push(f)) == spec_section_size(fs) + spec_field_size(f),
+{
+    assert(fs.push(f).drop_last() =~= fs);
+}
+pub proof fn lemma_section_size_prefix(fs: Seq<SpecField>, n: int)
+    requires 0 <= n <= fs.len(),
+    ensures spec_section_size(fs.take(n)) <= spec_section_size(fs),
+    decreases fs.len()
+{
+    if n < fs.len() {
+        assert(fs.drop_last().take(n) =~= fs.take(n));
+        lemma_section_size_prefix(fs.drop_last(), n);
+    } else {
+        assert(fs.take(n) =~= fs);
+    }
+}
+pub proof fn lemma_section_size_cons(f: SpecField, fs: Seq<SpecField>)
+    ensures spec_section_size(seq![f] + fs) == spec_field_size(f) + spec_section_size(fs),
+    decreases fs.len()
+{
+    if fs.len() == 0 {
+        assert(seq![f] + fs =~= seq![f]);
+        assert(seq![f].drop_last() =~= Seq::<SpecField>::empty());
+        assert(seq![f].last() == f);
+        assert(spec_section_size(Seq::<SpecField>::empty()) == 0);
+        assert(spec_section_size(seq![f]) == spec_section_size(seq![f].drop_last()) + spec_field_size(seq![f].last()));
+    } else {
+        assert((seq![f] + fs).drop_last() =~= seq![f] + fs.drop_last());
+        lemma_section_size_cons(f, fs.drop_last());
+    }
+}
+
+/// What the limit means, in terms of the limit-free RFC 9204 decoding: a section is accepted under `max` exactly
+/// when it is a valid encoding and its RFC 9114 §4.2.2 size (added to `acc`) does not exceed `max`.
+pub proof fn lemma_lines_limited_accept(s: Seq<u8>, acc: nat, max: nat, fs: Seq<SpecField>)
+    requires acc <= max,
+    ensures spec_lines_limited(s, acc, max) == SpecSection::Fields(fs) <==> (spec_lines(s) == Some(fs) && acc + spec_section_size(fs) <= max),
+    decreases s.len()
+{
+    if s.len() == 0 {
+        if spec_lines(s) == Some(fs) { assert(fs.len() == 0); }
+    } else {
+        match spec_field_line(s) {
+            None => {}
+            Some((f, k)) => {
+                if k == 0 || k > s.len() {
+                } else {
+                    let rest = s.skip(k as int);
+                    if acc + spec_field_size(f) > max {
+                        if spec_lines(s) == Some(fs) {
+                            let fs1 = spec_lines(rest).unwrap();
+                            lemma_section_size_cons(f, fs1);
+                        }
+                    } else {
+                        if fs.len() > 0 && fs[0] == f {
+                            let fs1 = fs.skip(1);
+                            assert(fs =~= seq![f] + fs1);
+                            lemma_section_size_cons(f, fs1);
+                            lemma_lines_limited_accept(rest, acc + spec_field_size(f), max, fs1);
+                            // both directions go through `fs == [f] + fs1`
+                            match spec_lines_limited(rest, acc + spec_field_size(f), max) {
+                                SpecSection::Fields(x) => { if seq![f] + x == fs { assert(x =~= fs1); } }
+                                _ => {}
+                            }
+                            match spec_lines(rest) {
+                                Some(x) => { if seq![f] + x == fs { assert(x =~= fs1); } }
+                                None => {}
+                            }
+                        } else {
+                            match spec_lines_limited(rest, acc + spec_field_size(f), max) {
+                                SpecSection::Fields(x) => { assert((seq![f] + x)[0] == f); }
+                                _ => {}
+                            }
+                            match spec_lines(rest) {
+                                Some(x) => { assert((seq![f] + x)[0] == f); }
+                                None => {}
+                            }
+                        }
+                    }
+                }
+            }
+        }
+    }
+}
+/// [C10] meaning of `Fields`: accepted exactly when valid and within the limit (size == limit accepted, limit + 1 refused).
+pub proof fn lemma_section_accept(s: Seq<u8>, max: nat, fs: Seq<SpecField>)
+    ensures spec_field_section(s, max) == SpecSection::Fields(fs) <==> (spec_field_section_nolimit(s) == Some(fs) && spec_section_size(fs) <= max),
+{
+    match spec_section_prefix(s) {
+        Some(k) => { lemma_lines_limited_accept(s.skip(k as int), 0, max, fs); }
+        None => {}
+    }
+}
+/// the first `p.len()` lines of `s` decode to `p`
+pub open spec fn spec_lines_prefix(s: Seq<u8>, p: Seq<SpecField>) -> bool
+    decreases p.len()
+{
+    if p.len() == 0 { true } else {
+        match spec_field_line(s) {
+            Some((f, k)) => 0 < k <= s.len() && f == p[0] && spec_lines_prefix(s.skip(k as int), p.skip(1)),
+            None => false,
+        }
+    }
+}
+/// [C10] meaning of `TooLong(n)`: some non-empty prefix `p` of the decoded field list has size n > max, and every
+/// shorter prefix is within the limit.
+pub proof fn lemma_lines_limited_too_long(s: Seq<u8>, acc: nat, max: nat, n: nat) -> (p: Seq<SpecField>)
+    requires spec_lines_limited(s, acc, max) == SpecSection::TooLong(n), acc <= max,
+    ensures p.len() > 0, spec_lines_prefix(s, p), n == acc + spec_section_size(p), n > max, acc + spec_section_size(p.drop_last()) <= max,
+    decreases s.len()
+{
+    let (f, k) = spec_field_line(s).unwrap();
+    if acc + spec_field_size(f) > max {
+        let p = seq![f];
+        assert(p.skip(1) =~= Seq::<SpecField>::empty());
+        assert(p.drop_last() =~= Seq::<SpecField>::empty());
+        lemma_section_size_push(Seq::<SpecField>::empty(), f);
+        assert(Seq::<SpecField>::empty().push(f) =~= p);
+        assert(spec_lines_prefix(s.skip(k as int), p.skip(1)));
+        p
+    } else {
+        let p1 = lemma_lines_limited_too_long(s.skip(k as int), acc + spec_field_size(f), max, n);
+        let p = seq![f] + p1;
+        assert(p.skip(1) =~= p1);
+        lemma_section_size_cons(f, p1);
+        assert(p.drop_last() =~= seq![f] + p1.drop_last());
+        lemma_section_size_cons(f, p1.drop_last());
+        p
+    }
 }
